@@ -372,13 +372,15 @@ theorem c04_clean_first_connect (s : S) (ok : Bool) (hp : s.proto = 5) (hc : s.c
   simp only [key, Key.mk.injEq] at hk
   simp [S.connectCleanFlag, hk.1, hk.2.1, hk.2.2, hc]
 
-/-- … and after a CONNACK has been processed, every later reconnect() (until the next connect()) issues CONNECT
-with the flag clear -/
+/-- … and after a CONNACK with result 0 has been processed, every later reconnect() (until the next connect())
+issues CONNECT with the flag clear. (Restated: the hypothesis used to read `rc = 0 ∨ rc ≥ 128`; since only a
+successful CONNACK ends the "first connect", that statement is false for a refused CONNACK — witness
+`c04_clean_refused_connack_witness` — and the refused case is `c04_clean_flag_refused_connack`.) -/
 theorem c04_clean_after_connack (cfg : Cfg) (ops : List Op) (sp ok : Bool) (rc : Nat) (post : List Op)
     (hc : cfg.clean = 3)
     (hpost : ∀ op ∈ post, ∀ b, op ≠ .connect b)
     (hsock : (runFrom cfg 5 ops).sock.isSome)
-    (hrc : rc = 0 ∨ rc ≥ 128) :
+    (hrc : rc = 0) :
     ((runFrom cfg 5 (ops ++ [.rx (.pkt (.connack sp rc)) ok] ++ post)).connectCleanFlag = false) ∨
     (∃ e, (runFrom cfg 5 (ops ++ [.rx (.pkt (.connack sp rc)) ok])).log.getLast? = some (.exc e)) := by
   have h0 : (S.init cfg 5 t0).proto = 5 := rfl
@@ -389,7 +391,7 @@ theorem c04_clean_after_connack (cfg : Cfg) (ops : List Op) (sp ok : Bool) (rc :
   have h5 : s.proto = 5 := hs.2
   have hstep : S.run s [.rx (.pkt (.connack sp rc)) ok] = s.step (.rx (.pkt (.connack sp rc)) ok) := rfl
   rw [hstep]
-  rcases loopRead_connack_five s sp rc ok h5 hsock with ⟨n, hn⟩ | hk
+  rcases loopRead_connack_five s sp rc ok h5 hsock hrc with ⟨n, hn⟩ | hk
   · right
     refine ⟨n, ?_⟩
     simp [S.step, S.emit, hn, hresEv]
@@ -400,6 +402,39 @@ theorem c04_clean_after_connack (cfg : Cfg) (ops : List Op) (sp ok : Bool) (rc :
     have hf := run_fc_false post _ hk'.2.1 hk'.2.2 hpost
     have hr := run_cfg_proto post _ hk'.2.1
     simp [S.connectCleanFlag, hr.2, hr.1, hk'.1, hcfg, hc, hf]
+
+/-- a CONNACK with a non-zero result (refused, or rejected by the reason code constructor) does not touch the flag:
+the CONNECT a reconnect() would issue right after it carries the same clean start as one issued right before it.
+Together with `c04_clean_after_connack`: the flag is cleared exactly by a CONNACK with result 0 -/
+theorem c04_clean_flag_refused_connack (cfg : Cfg) (ops : List Op) (sp ok : Bool) (rc : Nat)
+    (hrc : rc ≠ 0) :
+    (runFrom cfg 5 (ops ++ [.rx (.pkt (.connack sp rc)) ok])).firstConnect = (runFrom cfg 5 ops).firstConnect ∧
+    (runFrom cfg 5 (ops ++ [.rx (.pkt (.connack sp rc)) ok])).connectCleanFlag = (runFrom cfg 5 ops).connectCleanFlag := by
+  have h0 : (S.init cfg 5 t0).proto = 5 := rfl
+  have hs := run_cfg_proto ops (S.init cfg 5 t0) h0
+  simp only [runFrom, run_append] at *
+  generalize (S.init cfg 5 t0).run ops = s at *
+  have hstep : S.run s [.rx (.pkt (.connack sp rc)) ok] = s.step (.rx (.pkt (.connack sp rc)) ok) := rfl
+  rw [hstep]
+  have hk : key (s.step (.rx (.pkt (.connack sp rc)) ok)) = key s := by
+    simpa [S.step] using loopRead_connack_five_refused s sp rc ok hs.2 hrc
+  refine ⟨?_, flag_of_key hk⟩
+  simp only [key, Key.mk.injEq] at hk
+  exact hk.2.2
+
+/-- witness that the former statement of `c04_clean_after_connack` (with `rc ≥ 128` allowed) no longer holds:
+connect(), then CONNACK 135 (Not authorized) on the live socket: no exception, and the flag is still armed -/
+theorem c04_clean_refused_connack_witness :
+    (runFrom { clean := 3 } 5 [.connect true]).sock.isSome = true ∧
+    (runFrom { clean := 3 } 5 ([.connect true] ++ [.rx (.pkt (.connack false 135)) true] ++ [])).connectCleanFlag = true ∧
+    ¬ (∃ e, (runFrom { clean := 3 } 5 ([.connect true] ++ [.rx (.pkt (.connack false 135)) true])).log.getLast?
+        = some (.exc e)) := by
+  have hl : (runFrom { clean := 3 } 5 ([.connect true] ++ [.rx (.pkt (.connack false 135)) true])).log.getLast?
+      = some (.ret 2 none) := by decide +kernel
+  refine ⟨by decide +kernel, by decide +kernel, ?_⟩
+  rintro ⟨e, he⟩
+  rw [hl] at he
+  cases he
 
 /-- FULL-STRENGTH statement of the property's clause "clears it on every automatic reconnection": FALSE on the
 current code (known finding F12): the flag is cleared by the first processed CONNACK, not by the first CONNECT -/
